@@ -1,5 +1,5 @@
 CRDT = {"dir": "consensus/crdt", "pkgname": "crdt"}
-FILES = ["crdt/c02_rig_test.go", "crdt/c02_batch_test.go", "crdt/c02_set_test.go", "crdt/c02_net_test.go"]
+FILES = ["crdt/c02_rig_test.go", "crdt/c02_batch_test.go", "crdt/c02_set_test.go", "crdt/c02_net_test.go", "crdt/c02_restart_probe_test.go"]
 
 SPEC = {
     "go": [dict(CRDT, files=FILES, test="TestVerifC02Batch", n_quick=120, n_thorough=4000,
